@@ -223,13 +223,16 @@ class Check(BaseCheck):
                 k = rnd.random()
                 if k < 0.4:
                     return rnd.choice(['abc', '', 'x y', '12', 'é', ' ', 'TRUE', '#N/A', '1.50', 'a"b', "it's"])
-                if k < 0.75:
+                if k < 0.65:
                     return rnd.choice([0, 1, -1, 42, 10 ** 15, -7, rnd.randint(-10 ** 6, 10 ** 6)])
+                if k < 0.78:
+                    # an integer is an integer whether it is held as int or as float (6/3 is 2): its digits
+                    return float(rnd.choice([0, 2, -3, 42, 10 ** 6, 123456789, rnd.randint(-10 ** 9, 10 ** 9)]))
                 return None
             n = rnd.randint(2, 4)
             ops = [operand() for _ in range(n)]
             how = rnd.choice(['var', 'cell', 'lit'])
-            exp = ''.join('' if x is None else (x if isinstance(x, str) else str(x)) for x in ops)
+            exp = ''.join('' if x is None else (x if isinstance(x, str) else str(int(x))) for x in ops)
             if how == 'var':
                 for i, x in enumerate(ops):
                     self.e.bind(**{hx.varname(i): x})
